@@ -107,6 +107,19 @@ def positions(op, mask):
     for q in op.qubits:
         mask[q.x] = 1
     return mask
+
+def zz_lookup(table, key) -> list | None:
+    return table.get(key)
+
+def first_use(table, key):
+    if zz_lookup(table, key) is None:
+        return 0
+    return 1
+
+def second_use(table, key):
+    if zz_lookup(table, key):
+        return 1
+    return 0
 '''
     good = '''
 def make(a, opt=None):
@@ -171,10 +184,23 @@ def positions(op, mask):
             raise ValueError(q)
         mask[q.x] = 1
     return mask
+
+def zz_lookup(table, key) -> list | None:
+    return table.get(key)
+
+def first_use(table, key):
+    if zz_lookup(table, key) is None:
+        return 0
+    return 1
+
+def second_use(table, key):
+    if zz_lookup(table, key) is not None:
+        return 1
+    return 0
 '''
     rel = 'cirq-core/cirq/work/zz_fixture.py'
     base = core.Repo()
-    for src, want in ((bad, {'z_fwd': 1, 'z_drop': 1, 'z_pair': 2, 'z_get': 1, 'z_ctor': 1, 'z_opt': 1, 'z_gen': 1, 'z_memo': 1, 'z_first': 1, 'z_inv': 1, 'z_coord': 1}), (good, {})):
+    for src, want in ((bad, {'z_fwd': 1, 'z_drop': 1, 'z_pair': 2, 'z_get': 1, 'z_ctor': 1, 'z_opt': 1, 'z_gen': 1, 'z_memo': 1, 'z_first': 1, 'z_inv': 1, 'z_coord': 1, 'z_none': 1}), (good, {})):
         r = core.Repo(overlay={rel: src}, base=base)
         ctx = report.Ctx('C18', 'quick', r)
         general.apply(ctx, 'C18')
